@@ -117,6 +117,35 @@ def inject(r, rows, cfg, kind):
                 return None
             f.name_id = cfg["maxn"] - r.randint(0, 3)  # a slot the encoder never reached
         return rows
+    if kind == "unfilled_gap_ref":
+        # an entry given an explicit id that skips slots, then a reference into the gap: below the
+        # highest slot assigned so far, but never filled
+        which = r.choice(["name", "prefix", "datatype"])
+        size = {"name": cfg["maxn"], "prefix": cfg["maxp"], "datatype": cfg["maxd"]}[which]
+        fields = iri_fields if which != "datatype" else literal_fields
+        cands = [(i, f) for i in idx_stmt for f in fields(stmt_of(rows[i]))]
+        if not cands or size < 3:
+            return None
+        i, f = r.choice(cands)
+        la = hw = 0
+        for x in rows[:i]:
+            if x.WhichOneof("row") == which:
+                e = getattr(x, which)
+                la = e.id or la + 1
+                hw = max(hw, la)
+        if hw + 2 > size:
+            return None
+        high = r.randint(hw + 2, min(size, hw + 6))
+        gap = r.randint(hw + 1, high - 1)
+        cls = {"name": jelly.RdfNameEntry, "prefix": jelly.RdfPrefixEntry, "datatype": jelly.RdfDatatypeEntry}[which]
+        rows.insert(i, jelly.RdfStreamRow(**{which: cls(id=high, value="zz-high")}))
+        if which == "name":
+            f.name_id = gap
+        elif which == "prefix":
+            f.prefix_id = gap
+        else:
+            f.datatype = gap
+        return rows
     if kind == "datatype_zero":
         cands = [(i, f) for i in idx_stmt for f in literal_fields(stmt_of(rows[i]))]
         if not cands:
